@@ -26,6 +26,12 @@ def jobs(tier):
                            union_struct=True, kind="bounded", canary=(a == 8), functions=fns,
                            bound="calibration slots: allocation %d (concrete), occupancy and names symbolic" % a,
                            timeout=600))
+    for a in (0, 1, 8):
+        J.append(V.Job("free_vnacal.alloc%d" % a, H, "h_free_vnacal", SRCS + ["vnacal_free.c"],
+                       defines=["-DVC_CAL_ALLOC=%d" % a, "-DH_FREE", "-DVERIF_CUT_rfi_after_search=__CPROVER_assume(0)"],
+                       unwind=max(a, 2) + 2, union_struct=True, kind="bounded", canary=(a == 8),
+                       functions=["vnacal_free", "_vnacal_calibration_free", "_vnacal_teardown_parameter_collection"],
+                       bound="calibration slots: allocation %d, occupancy symbolic" % a, timeout=300))
     for a, live in ((3, 3), (8, 4)) if tier == "quick" else ((3, 3), (8, 4), (8, 5)):
         d = ["-DVC_PRM_ALLOC=%d" % a, "-DVC_PRM_LIVE_MAX=%d" % live,
              "-DVERIF_CUT_rfi_after_search=__CPROVER_assume(0)"]
